@@ -21,7 +21,8 @@ TRUSTED_BASE = [
 ]
 ASSUMPTIONS = [
     'user values: == is an equivalence consistent with hash; no int/bool/float mixing in one compared position; no NaN',
-    'accumulators return values of the seed type within 64-bit range (typed store arrays)',
+    'typed store arrays: a value the array REJECTS (float into an int state, out-of-range int) is modelled as one mux error with the state unchanged; '
+    'values accepted with a conversion (int stored into a float state) are outside the domain: accumulators return values of the seed type',
     'modelled domain: an unhandled OnErrorMux does not reach a stateful operator and the key then continues '
     '(the code reads a cleared slot there); key functions of group_by/split/time_split and terminators do not raise',
     'synchronous execution: what is emitted while source event i is pushed is chunk i',
